@@ -26,13 +26,13 @@ func sqID(elem *Sort) string {
 	return id
 }
 
-func sqLen(t string, elem *Sort) string       { return "(sq_len_" + sqID(elem) + " " + t + ")" }
-func sqNth(t, i string, elem *Sort) string    { return "(sq_nth_" + sqID(elem) + " " + t + " " + i + ")" }
-func sqApp(a, b string, elem *Sort) string    { return "(sq_app_" + sqID(elem) + " " + a + " " + b + ")" }
-func sqUnit(x string, elem *Sort) string      { return "(sq_unit_" + sqID(elem) + " " + x + ")" }
-func sqEmpty(elem *Sort) string               { return "sq_empty_" + sqID(elem) }
-func sqEq(a, b string, elem *Sort) string     { return "(sq_eq_" + sqID(elem) + " " + a + " " + b + ")" }
-func sqHas(s, x string, elem *Sort) string    { return "(sq_has_" + sqID(elem) + " " + s + " " + x + ")" }
+func sqLen(t string, elem *Sort) string    { return "(sq_len_" + sqID(elem) + " " + t + ")" }
+func sqNth(t, i string, elem *Sort) string { return "(sq_nth_" + sqID(elem) + " " + t + " " + i + ")" }
+func sqApp(a, b string, elem *Sort) string { return "(sq_app_" + sqID(elem) + " " + a + " " + b + ")" }
+func sqUnit(x string, elem *Sort) string   { return "(sq_unit_" + sqID(elem) + " " + x + ")" }
+func sqEmpty(elem *Sort) string            { return "sq_empty_" + sqID(elem) }
+func sqEq(a, b string, elem *Sort) string  { return "(sq_eq_" + sqID(elem) + " " + a + " " + b + ")" }
+func sqHas(s, x string, elem *Sort) string { return "(sq_has_" + sqID(elem) + " " + s + " " + x + ")" }
 func sqExt(t, lo, n string, elem *Sort) string {
 	return "(sq_ext_" + sqID(elem) + " " + t + " " + lo + " " + n + ")"
 }
